@@ -85,6 +85,14 @@ class AstToSqlVisitor(visitor.NodeVisitor):
 
         return sql_id
 
+    def generic_visit(self, node: ast._Node) -> str:
+        """
+        Node kinds without a SQL rendering (paths, lambdas, named parameters,
+        geography literals) are refused instead of silently rendering as `None`.
+        :meta private:
+        """
+        raise exceptions.TypeException("SQL translation", type(node).__name__)
+
     def visit_Null(self, node: ast.Null) -> str:
         ":meta private:"
         return "NULL"
@@ -112,6 +120,11 @@ class AstToSqlVisitor(visitor.NodeVisitor):
         ":meta private:"
         # Single quotes for date constants acc SQL Standard
         return f"DATE '{node.val}'"
+
+    def visit_Time(self, node: ast.Time) -> str:
+        ":meta private:"
+        # Single quotes for time constants acc SQL Standard
+        return f"TIME '{node.val}'"
 
     def visit_DateTime(self, node: ast.DateTime) -> str:
         ":meta private:"
